@@ -219,6 +219,7 @@ def gen_case(item, rng, tier):
     devices.append(tables)
     # data page: random bytes so loads produce varied values (incl. words used as page-table descriptors)
     G.set_data(devices[2], 0x3C0, bytes(rng.getrandbits(8) for _ in range(0x80)))
+    G.host_call_blocks(devices[2])
     reg0 = regime(rng, cfg, True)
     reg0['pc'] = CODE + 4 * rng.randrange(0, 64)
     core = {'config': cfg, 'devices': devices, 'regs': reg0, 'no_poke': [TABLES]}
